@@ -164,20 +164,30 @@ def encRes (s : State) : Res → SExp
   | .glyphs l => .list (l.map fun p => .list [.str p.1, ofNat p.2])
   | .err e => encErr e
 
-def driverStep (s : State) (line : SExp) : State × SExp :=
+/-- driver state: the model state, and whether a save has failed (the real font is then in an
+undefined half-saved condition: nothing is compared any more, on either side) -/
+structure DState where
+  st : State := {}
+  failed : Bool := false
+
+def driverStep (ds : DState) (line : SExp) : DState × SExp :=
   match line with
   | .list (.atom "init" :: _) =>
     match parseInit line with
-    | some s0 => (s0, .atom "ok")
-    | none => (s, .atom "bad-op")
+    | some s0 => ({ st := s0 }, .atom "ok")
+    | none => (ds, .atom "bad-op")
   | _ =>
     match parseOp line with
-    | none => (s, .atom "bad-op")
+    | none => (ds, .atom "bad-op")
     | some op =>
-      let (s1, r) := step s op
-      match r with
-      | .err e => (s1, .list [encErr e, encSnapshot s1])
-      | r => (s1, .list [.atom "ok", encRes s1 r, encSnapshot s1])
+      if ds.failed then (ds, .atom "after-failed-save")
+      else
+        let s := ds.st
+        let (s1, r) := step s op
+        match op, r with
+        | .save _ _, .err _ => ({ ds with failed := true }, .list [.atom "err", .atom "save-failed"])
+        | _, .err e => ({ ds with st := s1 }, .list [encErr e, encSnapshot s1])
+        | _, r => ({ ds with st := s1 }, .list [.atom "ok", encRes s1 r, encSnapshot s1])
 
 end Ext
 end DefconModel
